@@ -9,11 +9,15 @@
 #include "log_rules.h"
 
 #include "unc_tools.h"
+#include "verif_hooks.h"
 
 
 void log_rule2(const char *func, size_t line, const char *rule, Chunk *first, Chunk *second)
 {
    LOG_FUNC_ENTRY();
+#ifdef UNCRUSTIFY_VERIF
+   verif_note_rule(rule);
+#endif
 
    if (second->IsNot(CT_NEWLINE))
    {
